@@ -246,10 +246,30 @@ def param_order(eng, res, rule="R-DIST-PARAM-ORDER"):
                f"{ci.module.relpath}:{gs.node.lineno}", ok, f"constructor fills {order}, printer emits {holes}")
         # the window of the text handed to the reader: everything after the keyword for the tuple reader ("(a, b)"),
         # the keyword's parentheses stripped for a direct float()
+        single = {}
+        for st_ in own_nodes(init.node):
+            if isinstance(st_, ast.Assign) and len(st_.targets) == 1 and isinstance(st_.targets[0], ast.Name):
+                single.setdefault(st_.targets[0].id, []).append(st_.value)
+
+        def _bound(e):
+            # a bound held in a single-assignment temporary (`first = len("poisson") + 1`)
+            if isinstance(e, ast.Name) and len(single.get(e.id, [])) == 1:
+                return _int_of(single[e.id][0])
+            return _int_of(e)
+
         for sub in [x for x in own_nodes(init.node) if isinstance(x, ast.Subscript) and "_raw_text" in src(x.value) and isinstance(x.slice, ast.Slice)]:
             par = getattr(sub, "_parent", None)
+            if isinstance(par, ast.Assign) and len(par.targets) == 1 and isinstance(par.targets[0], ast.Name) and len(single.get(par.targets[0].id, [])) == 1:
+                # the window is named first (`parameter_text = self._raw_text[len(kw):]`) and read afterwards
+                tmp = par.targets[0].id
+                uses = [c_ for c_ in own_nodes(init.node) if isinstance(c_, ast.Call) and any(isinstance(a_, ast.Name) and a_.id == tmp for a_ in c_.args)]
+                if len(uses) == 1:
+                    par = uses[0]
             reader = callee_name(par) if isinstance(par, ast.Call) else None
-            lo, hi = _int_of(sub.slice.lower), _int_of(sub.slice.upper)
+            imp = init.module.imports.get(reader) if reader else None
+            if imp and imp[1]:
+                reader = imp[1]  # `from ast import literal_eval as <alias>`
+            lo, hi = _bound(sub.slice.lower), _bound(sub.slice.upper)
             if reader in ("make_tuple", "literal_eval"):
                 okw, want = (lo, hi) == (len(kw), None), f"[{len(kw)}:]"
             elif reader == "float":
